@@ -1708,6 +1708,10 @@ class Builder:
             self.subrt_add_pending_commands(commands=pre_commands)
             return
 
+        if all(isinstance(x, int) for x in (start, stop, step)):
+            # (a bound may be an int subclass that carries its value in `__int__`,
+            # such as a Future the host has already read)
+            start, stop, step = int(start), int(stop), int(step)
         if all(type(x) is int for x in (start, stop, step)) and step != 0:
             # The loop below exits when the index *equals* stop. Move stop to the first index
             # value outside range(start, stop, step), such that a step that does not divide
